@@ -910,168 +910,6 @@ func (fe *verifFE) stmt(s ast.Stmt) {
 	}
 }
 
-// ---------------------------------------------------------------------------
-// canonical form of a syntax tree: parentheses and positions dropped
-
-func verifCanon(n ast.Node) string {
-	// "else { if … }" and "else if …" are one construct for the builder (Else followed by a single If)
-	ast.Inspect(n, func(n ast.Node) bool {
-		if is, ok := n.(*ast.IfStmt); ok {
-			if blk, ok := is.Else.(*ast.BlockStmt); ok && len(blk.List) == 1 {
-				if inner, ok := blk.List[0].(*ast.IfStmt); ok {
-					is.Else = inner
-				}
-			}
-		}
-		return true
-	})
-	var sb strings.Builder
-	ast.Inspect(n, func(n ast.Node) bool {
-		if n == nil {
-			sb.WriteString(")")
-			return true
-		}
-		sb.WriteString("(")
-		switch v := n.(type) {
-		case *ast.ParenExpr:
-			sb.WriteString("P")
-		case *ast.Ident:
-			sb.WriteString("id:" + v.Name)
-		case *ast.BasicLit:
-			sb.WriteString("lit:" + v.Kind.String() + ":" + v.Value)
-		case *ast.BinaryExpr:
-			sb.WriteString("bin:" + v.Op.String())
-		case *ast.UnaryExpr:
-			sb.WriteString("un:" + v.Op.String())
-		case *ast.StarExpr:
-			sb.WriteString("star")
-		case *ast.IndexExpr:
-			sb.WriteString("index")
-		case *ast.SliceExpr:
-			sb.WriteString("slice:" + verifNilMask(v.Low != nil, v.High != nil, v.Max != nil, v.Slice3))
-		case *ast.SelectorExpr:
-			sb.WriteString("sel")
-		case *ast.CallExpr:
-			sb.WriteString("call:" + verifNilMask(v.Ellipsis.IsValid()))
-		case *ast.TypeAssertExpr:
-			sb.WriteString("assert:" + verifNilMask(v.Type != nil))
-		case *ast.FuncLit:
-			sb.WriteString("funclit")
-		case *ast.CompositeLit:
-			sb.WriteString("complit:" + verifNilMask(v.Type != nil))
-		case *ast.KeyValueExpr:
-			sb.WriteString("kv")
-		case *ast.Ellipsis:
-			sb.WriteString("ellipsis")
-		case *ast.ArrayType:
-			sb.WriteString("array:" + verifNilMask(v.Len != nil))
-		case *ast.MapType:
-			sb.WriteString("map")
-		case *ast.ChanType:
-			sb.WriteString("chan:" + strconv.Itoa(int(v.Dir)))
-		case *ast.FuncType:
-			sb.WriteString("functype:" + verifNilMask(v.Params != nil, v.Results != nil && len(v.Results.List) > 0))
-		case *ast.StructType:
-			sb.WriteString("struct")
-		case *ast.InterfaceType:
-			sb.WriteString("iface")
-		case *ast.FieldList:
-			sb.WriteString("fields")
-		case *ast.Field:
-			sb.WriteString("field:" + strconv.Itoa(len(v.Names)))
-		case *ast.ExprStmt:
-			sb.WriteString("expr")
-		case *ast.AssignStmt:
-			sb.WriteString("assign:" + v.Tok.String() + ":" + strconv.Itoa(len(v.Lhs)))
-		case *ast.IncDecStmt:
-			sb.WriteString("incdec:" + v.Tok.String())
-		case *ast.DeclStmt:
-			sb.WriteString("decl")
-		case *ast.GenDecl:
-			sb.WriteString("gen:" + v.Tok.String())
-		case *ast.ValueSpec:
-			sb.WriteString("valspec:" + strconv.Itoa(len(v.Names)) + verifNilMask(v.Type != nil))
-		case *ast.SendStmt:
-			sb.WriteString("send")
-		case *ast.GoStmt:
-			sb.WriteString("go")
-		case *ast.DeferStmt:
-			sb.WriteString("defer")
-		case *ast.ReturnStmt:
-			sb.WriteString("return")
-		case *ast.BlockStmt:
-			sb.WriteString("block")
-		case *ast.IfStmt:
-			sb.WriteString("if:" + verifNilMask(v.Init != nil, v.Else != nil))
-		case *ast.ForStmt:
-			sb.WriteString("for:" + verifNilMask(v.Init != nil, v.Cond != nil, v.Post != nil))
-		case *ast.RangeStmt:
-			sb.WriteString("range:" + v.Tok.String() + verifNilMask(v.Key != nil, v.Value != nil))
-		case *ast.SwitchStmt:
-			sb.WriteString("switch:" + verifNilMask(v.Init != nil, v.Tag != nil))
-		case *ast.TypeSwitchStmt:
-			sb.WriteString("typeswitch:" + verifNilMask(v.Init != nil))
-		case *ast.CaseClause:
-			sb.WriteString("case:" + strconv.Itoa(len(v.List)))
-		case *ast.SelectStmt:
-			sb.WriteString("select")
-		case *ast.CommClause:
-			sb.WriteString("comm:" + verifNilMask(v.Comm != nil))
-		case *ast.LabeledStmt:
-			sb.WriteString("label")
-		case *ast.BranchStmt:
-			sb.WriteString("branch:" + v.Tok.String() + verifNilMask(v.Label != nil))
-		case *ast.EmptyStmt:
-			sb.WriteString("empty")
-		default:
-			sb.WriteString("?")
-		}
-		return true
-	})
-	// parentheses carry no structure: "(P" ... ")" pairs are removed textually by the caller's
-	// comparison through verifDropParens
-	return verifDropParens(sb.String())
-}
-
-func verifNilMask(bs ...bool) string {
-	r := ""
-	for _, b := range bs {
-		if b {
-			r += "1"
-		} else {
-			r += "0"
-		}
-	}
-	return r
-}
-
-// verifDropParens removes every "(P" node wrapper (and its matching ")") from a canonical string.
-func verifDropParens(s string) string {
-	var out []byte
-	var stack []bool // true: this open bracket was a paren node (dropped)
-	for i := 0; i < len(s); i++ {
-		switch s[i] {
-		case '(':
-			if i+1 < len(s) && s[i+1] == 'P' && (i+2 >= len(s) || s[i+2] == '(' || s[i+2] == ')') {
-				stack = append(stack, true)
-				i++ // skip 'P'
-				continue
-			}
-			stack = append(stack, false)
-			out = append(out, '(')
-		case ')':
-			top := stack[len(stack)-1]
-			stack = stack[:len(stack)-1]
-			if !top {
-				out = append(out, ')')
-			}
-		default:
-			out = append(out, s[i])
-		}
-	}
-	return string(out)
-}
-
 func verifFindFunc(f *ast.File, name string) *ast.FuncDecl {
 	for _, d := range f.Decls {
 		if fd, ok := d.(*ast.FuncDecl); ok && fd.Name.Name == name {
@@ -1167,7 +1005,7 @@ func VerifH_C02_roundtrip() {
 	if got == nil || got.Body == nil {
 		return
 	}
-	vp.Assert("C02.roundtrip.same", verifCanon(got.Body) == verifCanon(orig.Body))
+	vp.Assert("C02.roundtrip.same", vp.Canon(got.Body) == vp.Canon(orig.Body))
 	// soundness: the emitted function type-checks in the original environment
 	i := strings.Index(text, "func body2")
 	if i >= 0 {
@@ -1176,4 +1014,3 @@ func VerifH_C02_roundtrip() {
 	}
 	vp.Cover("ALL.roundtrip.end", true)
 }
-
